@@ -29,7 +29,9 @@ import (
 	"github.com/bartventer/httpcache/store/fscache"
 	_ "github.com/bartventer/httpcache/store/memcache"
 	"github.com/bartventer/httpcache/verifsim/kit"
+	"github.com/bartventer/httpcache/verifsim/simgo"
 	"github.com/bartventer/httpcache/verifsim/simos"
+	"github.com/bartventer/httpcache/verifsim/simrand"
 )
 
 // ---------------- recorded history ----------------
@@ -172,6 +174,12 @@ type Run struct {
 	diskPlain  [][]byte
 	PlainHits  []string
 	plainWatch bool
+	// cipherSeen: path -> digest of the last full content written to that path by an encrypting backend
+	// (temporary files keep their entry after being renamed, so every completed write is remembered)
+	cipherSeen map[string][32]byte
+	// store-level runs: phase currently executing, and whether an injected disk fault fired in the second one
+	curPhase      int
+	faultInPhase2 bool
 	OpenErr    string
 	DiskEnd    map[string][]byte
 	sconn      driver.Conn
@@ -547,6 +555,11 @@ func (h diskHook) DiskOp(op *simos.Op) simos.Decision {
 	dec := simos.Decision{}
 	info := fmt.Sprintf("%s n=%d off=%d", op.Path, op.N, op.Off)
 	if f != nil {
+		r.mu.Lock()
+		if r.curPhase == 1 {
+			r.faultInPhase2 = true
+		}
+		r.mu.Unlock()
 		k := f.Arg
 		if f.Permille {
 			k = op.N * f.Arg / 1000
@@ -599,6 +612,18 @@ func (r *Run) applyPartialWrite(op *simos.Op, k int) {
 
 func (h diskHook) Wrote(p string, content []byte) {
 	r := h.r
+	if r.Scn.Backend == "fsenc" {
+		r.mu.Lock()
+		if r.cipherSeen == nil {
+			r.cipherSeen = map[string][32]byte{}
+		}
+		if len(content) >= 28 { // nonce + tag: anything shorter is a partial write
+			r.cipherSeen[p] = sha256.Sum256(content)
+		} else {
+			delete(r.cipherSeen, p)
+		}
+		r.mu.Unlock()
+	}
 	if len(r.diskPlain) == 0 {
 		return
 	}
@@ -610,6 +635,45 @@ func (h diskHook) Wrote(p string, content []byte) {
 			return
 		}
 	}
+}
+
+// cipherTwins reports two different files whose last written contents (at least nonce+tag long) were
+// byte-identical: two writes of an encrypting backend that produced the same ciphertext.
+func (r *Run) cipherTwins() (a, b string, n int) {
+	r.mu.Lock()
+	defer r.mu.Unlock()
+	paths := make([]string, 0, len(r.cipherSeen))
+	for p := range r.cipherSeen {
+		paths = append(paths, p)
+	}
+	sort.Strings(paths)
+	first := map[[32]byte]string{}
+	for _, p := range paths {
+		h := r.cipherSeen[p]
+		if q, ok := first[h]; ok && a == "" {
+			a, b = q, p
+		}
+		if _, ok := first[h]; !ok {
+			first[h] = p
+		}
+	}
+	return a, b, len(paths)
+}
+
+// goHook registers a goroutine of the library with the scheduler at its birth (no parking, no draw).
+func (r *Run) goHook() {
+	if r.Sim == nil || r.Sim.Aborted() {
+		return
+	}
+	r.Sim.Self()
+}
+
+// randHook is the scheduling point of the simulated crypto/rand.
+func (r *Run) randHook(what string) {
+	if r.Sim == nil || r.Sim.Aborted() {
+		return
+	}
+	r.Sim.Yield(what)
 }
 
 // ---------------- logger ----------------
@@ -690,6 +754,8 @@ func RunTsim(scn *Scenario) *Run {
 	curRun = r
 	curRunMu.Unlock()
 	simos.Reset(diskHook{r})
+	simrand.SetHook(r.randHook)
+	simgo.SetHook(r.goHook)
 	simos.WriteChunk = scn.WChunk
 
 	var wg sync.WaitGroup
@@ -783,6 +849,8 @@ func RunTsim(scn *Scenario) *Run {
 	r.Sim.Abort()
 	wg.Wait()
 	simos.SetHook(nil)
+	simrand.SetHook(nil)
+	simgo.SetHook(nil)
 	curRunMu.Lock()
 	curRun = nil
 	curRunMu.Unlock()
